@@ -125,3 +125,9 @@ func VhRegister(f *PackagesFacade, pkg *packages.Package, absPath string, file *
 	f.registerParsedFile(absPath, file, pkg)
 	f.packagesCache[pkg.PkgPath] = pkg
 }
+
+// VhCachePackage makes an imported (not globbed) package known to the facade: GetPackage finds it, its files are
+// not source files.
+func VhCachePackage(f *PackagesFacade, pkg *packages.Package) {
+	f.packagesCache[pkg.PkgPath] = pkg
+}
